@@ -257,6 +257,120 @@ func runEdge(rep *core.Report, e edge, l sim.Layout) {
 	t0 := factsOf(n1.Node, l) // committed state before the open transaction
 	victim := n1
 	vconn, vpg := conn, pg
+	// the attempted operation (run after the role change, or - role "destroying" - from inside it)
+	var db *litefs.DB
+	var before facts
+	var operr error
+	var pn *core.Panic
+	applicable := true
+	limit := -1
+	ranAtDestroy := false
+	ps := int64(l.PageSize)
+	runOp := func() {
+		db = victim.Store.DB("db")
+		// the image at the node's position: frames of a complete but uncaptured transaction do not count
+		if e.Role != "replica" && e.Role != "exholder" {
+			limit = pg.CommittedFrames()
+		}
+		before = factsUpTo(victim.Node, l, limit)
+		pn = core.Try(func() {
+			switch e.Op {
+			case "DBWrite":
+				operr = vconn.WriteDB(0, l.PageBytes(1, sim.Content{V: 77, Sz: 2, Wal: e.Mode == "wal"}))
+			case "DBTruncate":
+				sz, _ := vconn.DBSize()
+				operr = vconn.TruncateDB(sz)
+			case "DBRemove":
+				c2 := victim.Connect("db", 43)
+				operr = c2.RemoveDB()
+			case "DBRemoveRace":
+				// the unlink starts on the primary; when Drop creates its transaction file the lease is lost
+				n1.OS.Before = func(ev sim.OSEvent) error {
+					if ev.Label == "DROP:LTX" && ev.Call == "Create" {
+						cl.Lease.AllowOnly()
+						n1.Store.Demote()
+						for t0 := time.Now(); n1.Store.IsPrimary() && time.Since(t0) < 10*time.Second; {
+							time.Sleep(200 * time.Microsecond)
+						}
+					}
+					return nil
+				}
+				c2 := victim.Connect("db", 43)
+				operr = c2.RemoveDB()
+				n1.OS.Before = nil
+				if n1.Store.IsPrimary() {
+					core.Infra("the drop did not reach the point at which authority is withdrawn")
+				}
+			case "JCreate":
+				if vconn.JournalExists() {
+					applicable = false
+					return
+				}
+				operr = vconn.OpenJournal()
+			case "JWrite":
+				if operr = vconn.OpenJournal(); operr == nil {
+					operr = vconn.WriteJournal(512, []byte{0, 0, 0, 1})
+				}
+			case "JZeroHeader":
+				if operr = vconn.OpenJournal(); operr == nil {
+					operr = vconn.WriteJournal(0, make([]byte, 28))
+				}
+			case "JTruncate":
+				if operr = vconn.OpenJournal(); operr == nil {
+					operr = vconn.TruncateJournal(0)
+				}
+			case "JRemove":
+				operr = vconn.RemoveJournal()
+			case "WCreate":
+				operr = vconn.OpenWAL()
+			case "WHeader":
+				if operr = vconn.OpenWAL(); operr == nil {
+					h := make([]byte, 32)
+					copy(h, []byte{0x37, 0x7f, 0x06, 0x82})
+					operr = vconn.WriteWAL(0, h)
+				}
+			case "WFrame":
+				if operr = vconn.OpenWAL(); operr == nil {
+					operr = vconn.WriteWAL(32+3*(24+ps), make([]byte, 24))
+				}
+			case "WTruncate":
+				if operr = vconn.OpenWAL(); operr == nil {
+					operr = vconn.TruncateWAL(0)
+				}
+			case "WRemove":
+				if operr = vconn.OpenWAL(); operr == nil {
+					operr = vconn.RemoveWAL()
+				}
+			case "WUnlockWrite":
+				operr = vconn.LockSHM(fuse.LockUnlock, 120, 120)
+			case "ImportRace":
+				// the request arrives on the primary and waits for the write lock the open transaction holds;
+				// the lease is lost while it waits
+				im := l.ImageOf([]sim.Content{{V: 56, Sz: 1, Wal: false}})
+				done := make(chan error, 1)
+				go func() {
+					done <- lhttp.NewClient().Import(context.Background(), n1.URL, "db", bytes.NewReader(im.Pages[1]))
+				}()
+				time.Sleep(100 * time.Millisecond)
+				cl.Lease.AllowOnly()
+				n1.Store.Demote()
+				for t0 := time.Now(); n1.Store.IsPrimary() && time.Since(t0) < 10*time.Second; {
+					time.Sleep(200 * time.Microsecond)
+				}
+				select {
+				case operr = <-done:
+				case <-time.After(20 * time.Second):
+					operr = nil
+					violate(rep, "C07.no-hang", "import-still-waiting-after-demotion", map[string]any{}, e, l)
+				}
+			case "Import":
+				im := l.ImageOf([]sim.Content{{V: 55, Sz: 1, Wal: false}})
+				operr = db.Import(sim.Ctx(), bytes.NewReader(im.Pages[1]))
+			default:
+				core.Infra("unknown op %s", e.Op)
+			}
+		})
+	}
 	if e.Role == "replica" || e.Role == "exholder" {
 		n2, err := cl.Start("n2", sim.ClusterNodeOpts{Candidate: false})
 		if err != nil {
@@ -340,7 +454,26 @@ func runEdge(rep *core.Report, e edge, l sim.Layout) {
 			goto demoted // authority is withdrawn in the middle of the operation instead
 		}
 		cl.Lease.AllowOnly()
-		n1.Store.Demote()
+		if e.Role == "destroying" {
+			// the operation is attempted at the moment the lease service sees the lease go away
+			// (inside Lease.Close(), called by the node on its way out of the primary role)
+			opDone := make(chan struct{})
+			var once sync.Once
+			cl.Lease.Log = func(ev, node, detail string) {
+				if ev == "close" {
+					once.Do(func() { runOp(); close(opDone) })
+				}
+			}
+			n1.Store.Demote()
+			select {
+			case <-opDone:
+			case <-time.After(30 * time.Second):
+				core.Infra("the demoted node did not destroy its lease")
+			}
+			ranAtDestroy = true
+		} else {
+			n1.Store.Demote()
+		}
 		deadline := time.Now().Add(20 * time.Second)
 		for n1.Store.IsPrimary() {
 			if time.Now().After(deadline) {
@@ -351,116 +484,13 @@ func runEdge(rep *core.Report, e edge, l sim.Layout) {
 		}
 	}
 demoted:
-	db := victim.Store.DB("db")
-	if db == nil || (db.Writeable() && e.Op != "DBRemoveRace" && e.Op != "ImportRace") {
+	db = victim.Store.DB("db")
+	if !ranAtDestroy && (db == nil || (db.Writeable() && e.Op != "DBRemoveRace" && e.Op != "ImportRace")) {
 		core.Infra("victim is still writable")
 	}
-	// the image at the node's position: frames of a complete but uncaptured transaction do not count
-	limit := -1
-	if e.Role != "replica" && e.Role != "exholder" {
-		limit = pg.CommittedFrames()
+	if !ranAtDestroy {
+		runOp()
 	}
-	before := factsUpTo(victim.Node, l, limit)
-	ps := int64(l.PageSize)
-	var operr error
-	applicable := true
-	pn := core.Try(func() {
-		switch e.Op {
-		case "DBWrite":
-			operr = vconn.WriteDB(0, l.PageBytes(1, sim.Content{V: 77, Sz: 2, Wal: e.Mode == "wal"}))
-		case "DBTruncate":
-			sz, _ := vconn.DBSize()
-			operr = vconn.TruncateDB(sz)
-		case "DBRemove":
-			c2 := victim.Connect("db", 43)
-			operr = c2.RemoveDB()
-		case "DBRemoveRace":
-			// the unlink starts on the primary; when Drop creates its transaction file the lease is lost
-			n1.OS.Before = func(ev sim.OSEvent) error {
-				if ev.Label == "DROP:LTX" && ev.Call == "Create" {
-					cl.Lease.AllowOnly()
-					n1.Store.Demote()
-					for t0 := time.Now(); n1.Store.IsPrimary() && time.Since(t0) < 10*time.Second; {
-						time.Sleep(200 * time.Microsecond)
-					}
-				}
-				return nil
-			}
-			c2 := victim.Connect("db", 43)
-			operr = c2.RemoveDB()
-			n1.OS.Before = nil
-			if n1.Store.IsPrimary() {
-				core.Infra("the drop did not reach the point at which authority is withdrawn")
-			}
-		case "JCreate":
-			if vconn.JournalExists() {
-				applicable = false
-				return
-			}
-			operr = vconn.OpenJournal()
-		case "JWrite":
-			if operr = vconn.OpenJournal(); operr == nil {
-				operr = vconn.WriteJournal(512, []byte{0, 0, 0, 1})
-			}
-		case "JZeroHeader":
-			if operr = vconn.OpenJournal(); operr == nil {
-				operr = vconn.WriteJournal(0, make([]byte, 28))
-			}
-		case "JTruncate":
-			if operr = vconn.OpenJournal(); operr == nil {
-				operr = vconn.TruncateJournal(0)
-			}
-		case "JRemove":
-			operr = vconn.RemoveJournal()
-		case "WCreate":
-			operr = vconn.OpenWAL()
-		case "WHeader":
-			if operr = vconn.OpenWAL(); operr == nil {
-				h := make([]byte, 32)
-				copy(h, []byte{0x37, 0x7f, 0x06, 0x82})
-				operr = vconn.WriteWAL(0, h)
-			}
-		case "WFrame":
-			if operr = vconn.OpenWAL(); operr == nil {
-				operr = vconn.WriteWAL(32+3*(24+ps), make([]byte, 24))
-			}
-		case "WTruncate":
-			if operr = vconn.OpenWAL(); operr == nil {
-				operr = vconn.TruncateWAL(0)
-			}
-		case "WRemove":
-			if operr = vconn.OpenWAL(); operr == nil {
-				operr = vconn.RemoveWAL()
-			}
-		case "WUnlockWrite":
-			operr = vconn.LockSHM(fuse.LockUnlock, 120, 120)
-		case "ImportRace":
-			// the request arrives on the primary and waits for the write lock the open transaction holds;
-			// the lease is lost while it waits
-			im := l.ImageOf([]sim.Content{{V: 56, Sz: 1, Wal: false}})
-			done := make(chan error, 1)
-			go func() {
-				done <- lhttp.NewClient().Import(context.Background(), n1.URL, "db", bytes.NewReader(im.Pages[1]))
-			}()
-			time.Sleep(100 * time.Millisecond)
-			cl.Lease.AllowOnly()
-			n1.Store.Demote()
-			for t0 := time.Now(); n1.Store.IsPrimary() && time.Since(t0) < 10*time.Second; {
-				time.Sleep(200 * time.Microsecond)
-			}
-			select {
-			case operr = <-done:
-			case <-time.After(20 * time.Second):
-				operr = nil
-				violate(rep, "C07.no-hang", "import-still-waiting-after-demotion", map[string]any{}, e, l)
-			}
-		case "Import":
-			im := l.ImageOf([]sim.Content{{V: 55, Sz: 1, Wal: false}})
-			operr = db.Import(sim.Ctx(), bytes.NewReader(im.Pages[1]))
-		default:
-			core.Infra("unknown op %s", e.Op)
-		}
-	})
 	_ = vpg
 	rmu.Lock()
 	defer rmu.Unlock()
@@ -518,7 +548,7 @@ demoted:
 	}
 	// M4: once the connection lets go and the role-change recovery has run, the node holds exactly the
 	// committed state from before the open transaction: nothing of it was published
-	if e.Role == "demoted" && len(exits) == 0 && !((e.Op == "WTruncate" || e.Op == "WRemove") && e.WalC) && e.Op != "Import" {
+	if (e.Role == "demoted" || e.Role == "destroying") && len(exits) == 0 && !((e.Op == "WTruncate" || e.Op == "WRemove") && e.WalC) && e.Op != "Import" {
 		_ = core.Try(vconn.Close)
 		deadline := time.Now().Add(10 * time.Second)
 		for time.Now().Before(deadline) {
